@@ -53,6 +53,7 @@ static CASBIN_PACKAGE: Lazy<CasbinPackage> = Lazy::new(CasbinPackage::new);
 use std::{cmp::max, collections::HashMap, sync::Arc};
 
 type EventCallback = fn(&mut Enforcer, EventData);
+type PolicyBackup = Vec<(String, String, hashlink::LinkedHashSet<Vec<String>>)>;
 
 /// Enforcer is the main interface for authorization enforcement and policy management.
 pub struct Enforcer {
@@ -378,6 +379,41 @@ impl Enforcer {
             OperatorFunction::Arg6(func) => {
                 engine.register_fn(key, func);
             }
+        }
+    }
+
+    /// Snapshot of the stored rules, taken before a (re)load.
+    fn backup_policy(&self) -> PolicyBackup {
+        let mut backup = vec![];
+        for sec in ["p", "g"] {
+            if let Some(ast_map) = self.model.get_model().get(sec) {
+                for (ptype, ast) in ast_map {
+                    backup.push((
+                        sec.to_owned(),
+                        ptype.to_owned(),
+                        ast.get_policy().clone(),
+                    ));
+                }
+            }
+        }
+        backup
+    }
+
+    /// A failed load must leave the previously loaded policy in force.
+    fn restore_policy(&mut self, backup: PolicyBackup) {
+        self.model.clear_policy();
+        for (sec, ptype, policy) in backup {
+            if let Some(ast) = self
+                .model
+                .get_mut_model()
+                .get_mut(&sec)
+                .and_then(|ast_map| ast_map.get_mut(&ptype))
+            {
+                *ast.get_mut_policy() = policy;
+            }
+        }
+        if self.auto_build_role_links {
+            let _ = self.build_role_links();
         }
     }
 
@@ -725,27 +761,36 @@ impl CoreApi for Enforcer {
     }
 
     async fn load_policy(&mut self) -> Result<()> {
+        let backup = self.backup_policy();
         self.model.clear_policy();
-        self.adapter.load_policy(&mut *self.model).await?;
+        let mut res = self.adapter.load_policy(&mut *self.model).await;
 
-        if self.auto_build_role_links {
-            self.build_role_links()?;
+        if res.is_ok() && self.auto_build_role_links {
+            res = self.build_role_links();
+        }
+        if res.is_err() {
+            self.restore_policy(backup);
         }
 
-        Ok(())
+        res
     }
 
     async fn load_filtered_policy<'a>(&mut self, f: Filter<'a>) -> Result<()> {
+        let backup = self.backup_policy();
         self.model.clear_policy();
-        self.adapter
+        let mut res = self
+            .adapter
             .load_filtered_policy(&mut *self.model, f)
-            .await?;
+            .await;
 
-        if self.auto_build_role_links {
-            self.build_role_links()?;
+        if res.is_ok() && self.auto_build_role_links {
+            res = self.build_role_links();
+        }
+        if res.is_err() {
+            self.restore_policy(backup);
         }
 
-        Ok(())
+        res
     }
 
     #[inline]
